@@ -2312,7 +2312,7 @@ def pattern_method(I, pat, name, args, kwargs):
     if name == 'sub' and len(args) >= 2 and is_concrete(args[0]) and isinstance(concretise(args[0]), str):
         # pattern.sub(constant replacement, s): an uninterpreted function of the subject; exact
         # on constant subjects
-        o = pat.obj if isinstance(pat, VConc) else None
+        o = pat.obj if isinstance(pat, VConc) else pat
         subj = z3.simplify(strterm(args[1]))
         repl = concretise(args[0])
         if o is not None and z3.is_string_value(subj):
@@ -2321,7 +2321,56 @@ def pattern_method(I, pat, name, args, kwargs):
         key = hashlib.md5(('%s|%s' % (getattr(o, 'pattern', id(pat)), repl)).encode()).hexdigest()[:10]
         f = z3.Function('re_sub_' + key, z3.StringSort(), z3.StringSort())
         return VStr(f(subj))
+    if name in ('subn', 'sub') and len(args) >= 2:
+        # pattern.subn(callable-or-text, s): an uninterpreted function of the subject, which is the
+        # subject itself when the pattern has no match; REGEX-STRUCT fact: a pattern whose every match
+        # contains a given literal character has no match in a string without that character
+        o = pat.obj if isinstance(pat, VConc) else pat
+        subj = strterm(args[1])
+        nomatch, _, _, _ = match_functions(o, 'search')
+        for ch in mandatory_literals(o):
+            I.assume(z3.Implies(z3.Not(z3.Contains(subj, z3.StringVal(ch))), nomatch(subj)))
+        import hashlib
+        key = hashlib.md5(('%s|%r' % (getattr(o, 'pattern', id(pat)), type(args[0]).__name__)).encode()).hexdigest()[:10]
+        f = z3.Function('re_subfn_' + key, z3.StringSort(), z3.StringSort())
+        n = z3.Function('re_subcount_' + key, z3.StringSort(), z3.IntSort())
+        out = VStr(z3.If(nomatch(subj), subj, f(subj)))
+        if name == 'sub':
+            return out
+        return VTuple([out, VInt(z3.If(nomatch(subj), z3.IntVal(0), n(subj)))])
     raise Unsupported('Pattern.%s' % name)
+
+
+_mandlit = {}
+
+
+def mandatory_literals(pattern):
+    """literal characters that occur in EVERY match of the pattern: LITERAL items on the spine
+    (sequence / groups / repeats with minimum >= 1), case-sensitive patterns only"""
+    if pattern is None or (pattern.flags & _re.IGNORECASE):
+        return []
+    key = (pattern.pattern, pattern.flags)
+    if key in _mandlit:
+        return _mandlit[key]
+    import re._constants as C
+    import re._parser as P
+    out = []
+
+    def walk(sp):
+        for op, av in sp.data:
+            if op is C.LITERAL:
+                out.append(chr(av))
+            elif op is C.SUBPATTERN:
+                walk(av[3])
+            elif op in (C.MAX_REPEAT, C.MIN_REPEAT, C.POSSESSIVE_REPEAT) and av[0] >= 1:
+                walk(av[2])
+    try:
+        p = pattern.pattern
+        walk(P.parse(p.decode('latin-1') if isinstance(p, bytes) else p, pattern.flags))
+    except Exception:
+        out = []
+    _mandlit[key] = sorted(set(out))
+    return _mandlit[key]
 
 
 # ---------------------------------------------------------------------------
